@@ -25,6 +25,7 @@ pub struct JobRun {
     pub recvs: Vec<RecvEv>,
     pub ctx: Arc<JobCtx>,
     pub probe_info: Vec<(u32, String, usize)>,
+    pub edges: Vec<(u32, u32, &'static str)>,
 }
 
 pub enum RunResult {
@@ -44,13 +45,13 @@ pub fn run_spec(job: &JobSpec, cfg: &ConfigSpec, opts: &RunOpts, addr: AddrSeed)
         batch: cfg.batch,
         crash: opts.crash,
     };
-    let info = Arc::new(std::sync::Mutex::new(Vec::new()));
+    let info = Arc::new(std::sync::Mutex::new((Vec::new(), Vec::new())));
     let info2 = info.clone();
     let build: BuildFn<Vec<SinkOut>> = Arc::new(move |env, host| {
         let mut b = Builder::new(env, bopts.clone());
         b.job(&job2);
         if host == 0 {
-            *info2.lock().unwrap() = b.probe_info.clone();
+            *info2.lock().unwrap() = (b.probe_info.clone(), b.edges.clone());
         }
         let sinks = std::mem::take(&mut b.sinks);
         Box::new(move || sinks.into_iter().map(|c| c()).collect())
@@ -60,7 +61,7 @@ pub fn run_spec(job: &JobSpec, cfg: &ConfigSpec, opts: &RunOpts, addr: AddrSeed)
             let probes = ctx.take_probes();
             let sends = std::mem::take(&mut *ctx.sends.lock().unwrap());
             let recvs = std::mem::take(&mut *ctx.recvs.lock().unwrap());
-            let probe_info = info.lock().unwrap().clone();
+            let (probe_info, edges) = info.lock().unwrap().clone();
             RunResult::Done(JobRun {
                 hosts,
                 probes,
@@ -68,6 +69,7 @@ pub fn run_spec(job: &JobSpec, cfg: &ConfigSpec, opts: &RunOpts, addr: AddrSeed)
                 recvs,
                 ctx,
                 probe_info,
+                edges,
             })
         }
         JobOutcome::Deadlock(d) => RunResult::Deadlock(d, ctx),
